@@ -12,10 +12,13 @@
 // Every tolerance and exception below is derived from the property text and the STIR sources; the
 // source is cited next to it.  Decisions taken after triage on the unchanged tree (details, replay files and
 // proposed patches in work/notes/C12_findings.md):
-//   suspected defects, excluded narrowly by construction (VERIF_NO_EXCLUDE=1 switches the exclusions off):
-//     F1 ArcCorrection: last output bin twice as wide        F4 generic/blocks get_bin does not invert get_LOR
-//     F2 get_bin rounds adjacent detectors to det1==det2      F5 arc-corrected get_bin returns view_num==num_views
-//     F3 generic get_tantheta divides by 2R, not the chord    F6 TOF bin limits differ by one ulp -> time differences in no bin
+//   known finding, excluded narrowly by construction (VERIF_NO_EXCLUDE=1 switches the exclusion off):
+//     F4 generic/blocks get_bin does not invert get_LOR
+//   defects found by this harness and repaired in STIR (regression inputs replays/C12/fixed_*.json; the input classes are
+//   part of the normal search):
+//     F1 ArcCorrection: last output bin twice as wide        F5 arc-corrected get_bin returned view_num==num_views
+//     F2 get_bin rounded adjacent detectors to det1==det2     (F6, TOF bin limits one ulp apart, was a clause beyond the property text: now a counter)
+//     F3 generic get_tantheta divided by 2R, not the chord
 //   oracle decisions (not defects):
 //     D1 a miss is also accepted at the first/last tangential position when the bin's LOR is a tie between detectors
 //     D2 obliqueness of axially truncated / even-span bins is checked at segment level (STIR's documented convention)
@@ -42,12 +45,11 @@ namespace {
 
 const double PI = 3.14159265358979323846;
 
-// Suspected STIR defects found by this harness are excluded narrowly (see work/notes/C12_findings.md);
-// VERIF_NO_EXCLUDE=1 switches every exclusion off so that the recorded cases fail again.
+// The known finding F4 is excluded narrowly (see work/notes/C12_findings.md);
+// VERIF_NO_EXCLUDE=1 switches the exclusion off so that the recorded cases fail again.
 // A case may carry "lift_only": "Fn": with VERIF_NO_EXCLUDE=1 only that exclusion is then lifted (the known-finding probes in
-// known/C12/ use it so that each probe fails for its own finding and is not masked by another one); without the field
-// VERIF_NO_EXCLUDE=1 lifts all of them.  Without VERIF_NO_EXCLUDE the field has no effect.  "F4a" = F4 with the two-point
-// LOR representation only.
+// known/C12/ use it); without the field VERIF_NO_EXCLUDE=1 lifts every exclusion.  Without VERIF_NO_EXCLUDE the field has no
+// effect.  "F4a" = F4 with the two-point LOR representation only.
 std::string g_lift_only; // set by check() from the case
 
 bool
@@ -267,23 +269,17 @@ check_tof(const ProjDataInfo& p)
           VF_CHECK(std::fabs(hips - lo1ps) <= 2e-6 * (hips - lops) * (kmax + 1), "TOF boundaries not contiguous (ps): high(", k, ")=", hips, " low(", k + 1,
                    ")=", lo1ps);
           stats().maxi("TOF boundary gap/overlap (bins)", std::fabs(hi - lo1) / inc);
-          // a gap of even one ulp is a time difference that belongs to no bin (get_tof_bin then warns and returns the
-          // first bin): counted, and decided by the round trip of clause (1) which passes through get_tof_bin
-          // FINDING C12-F6: the two limits are stored separately as float (ProjDataInfo.cxx:237-240) and can differ by one ulp;
-          // a time difference at/between them belongs to neither bin and get_tof_bin (ProjDataInfo.inl:78-93) falls through to
-          // "out of range" -> first TOF bin.  With exclusions on the limits are compared with the float tolerance above and the
-          // functional probes are only counted; with VERIF_NO_EXCLUDE=1 every probe must be assigned to bin k or k+1.
+          // The limits of adjacent bins are stored separately as float (ProjDataInfo.cxx, set_tof_mash_factor) and can differ
+          // by one ulp; get_tof_bin() of a time difference inside such a gap warns and returns the first bin.  The property
+          // text does not speak about time differences exactly on a bin boundary (the round trip uses the bin centre), so
+          // this is counted, not asserted (DESIGN.md section 10: former entry C12-F6 was a clause beyond the property).
           if (hips != lo1ps)
             stats().count("TOF boundaries (ps) not bitwise contiguous");
           for (double probe : { hips, lo1ps, (hips + lo1ps) / 2 })
             {
               const int kb = p.get_tof_bin(probe);
-              const bool ok = kb == k || kb == k + 1;
-              if (!ok && exclusions_on("F6"))
-                count_excluded("C12-F6 time difference between two TOF bins assigned to neither");
-              else
-                VF_CHECK(ok, "TOF boundaries not contiguous: the time difference ", probe, " ps between bin ", k, " (high ", hips, ") and bin ", k + 1, " (low ",
-                         lo1ps, ") is assigned to TOF bin ", kb);
+              if (!(kb == k || kb == k + 1))
+                stats().count("time difference on a TOF bin boundary assigned to neither neighbour (not asserted)");
             }
         }
       stats().count("tof bins checked");
@@ -484,14 +480,12 @@ check_noarc(const ProjDataInfoCylindricalNoArcCorr& p, const json& c)
                 // 'ties': the LOR reported for the bin lies half-way between detectors (interleaving for odd tangential
                 // positions: phi ignores it, see get_s/get_phi docs; or the centre of an even number of mashed views)
                 const bool ties = (t % 2 != 0) || (mash % 2 == 0);
-                // FINDING C12-F2: for the outermost possible tangential position |t| = N/2-1 (LOR between adjacent detectors)
-                // a tie can round both ends to the SAME detector; get_bin then indexes its det1==det2 table entry
-                // (assert in debug builds, uninitialised entry otherwise).  Excluded by construction.
-                if (ties && std::abs(t) == g.N / 2 - 1 && exclusions_on("F2"))
-                  {
-                    count_excluded("C12-F2 tie between adjacent detectors", long(ks.size()));
-                    continue;
-                  }
+                // (fixed defect C12-F2, replays/C12/fixed_F2_*.json: for the outermost possible tangential position |t| = N/2-1,
+                // LOR between adjacent detectors, a tie can round both ends to the SAME detector; get_bin indexed its det1==det2
+                // table entry.  It now reports "no such bin", which rule D1 accepts: |t| = N/2-1 is always the first/last
+                // tangential position because at most N-1 tangential positions exist.)
+                if (ties && std::abs(t) == g.N / 2 - 1)
+                  stats().count("(1) round trips of ties between adjacent detectors", long(ks.size()));
                 for (int k : ks)
                   {
                     const Bin b(seg, v, ax, t, k, 1.f);
@@ -614,14 +608,12 @@ check_arc(const ProjDataInfoCylindricalArcCorr& p, const json& c)
                 // ---- clause (1): exact.  ProjDataInfoCylindricalArcCorr::get_bin calls error("TODO NO TOF YET") for a
                 // non-zero time difference (ProjDataInfoCylindricalArcCorr.cxx:105), so only the central TOF bin
                 // (time difference 0) is inside the documented domain ----
-                // FINDING C12-F5: for view 0 and a positive azimuthal offset (intrinsic tilt, or the view-mashing offset) the LOR's phi can
-                // come back from the representation change a rounding error BELOW the offset; get_bin then computes
-                // round(to_0_2pi(phi-offset)/sampling) = 2 x num_views and returns view_num == num_views
-                // (assert(bin.view_num() < get_num_views()) in ProjDataInfoCylindricalArcCorr.cxx:125, an out-of-range view in
-                // release builds).  Excluded by construction: view 0 of arc-corrected data with a positive offset.
-                if (v == 0 && p.get_azimuthal_angle_offset() > 0 && exclusions_on("F5"))
-                  count_excluded("C12-F5 arc-corrected get_bin, view 0 with positive azimuthal offset");
-                else
+                // (fixed defect C12-F5, replays/C12/fixed_F5_*.json: for view 0 and a positive azimuthal offset -- intrinsic tilt, or
+                // the view-mashing offset -- the LOR's phi can come back from the representation change a rounding error BELOW
+                // the offset; get_bin computed round(to_0_2pi(phi-offset)/sampling) = 2 x num_views and returned
+                // view_num == num_views)
+                if (v == 0 && p.get_azimuthal_angle_offset() > 0)
+                  stats().count("(1) round trips of view 0 with positive azimuthal offset");
                 {
                   const double dt = p.get_tof_delta_time(b);
                   VF_CHECK(dt == 0., "central TOF bin has time difference ", dt);
@@ -691,22 +683,17 @@ check_blocks(const ProjDataInfoGenericNoArcCorr& p, const json& c)
             stats().maxi("(2) blocks |m - m_det| / axial sampling", std::fabs(m - l.m) / spacing);
             VF_CHECK(dphi <= tol.phi_even, "get_phi=", phi, " but the detectors of ", bstr(b), " give phi=", l.phi);
             stats().maxi("(2) blocks |phi - phi_det| (rad)", dphi);
-            // FINDING C12-F3: ProjDataInfoGeneric::get_tantheta divides the axial distance of the LOR's end points by the
-            // cylinder DIAMETER 2R instead of their transaxial distance 2 sqrt(R^2-s^2) (ProjDataInfoGeneric.inl:71-77), i.e. it is
-            // too small by sqrt(1-(s/R)^2).  Excluded by construction: with exclusions on only bins with (s/R)^2 < 2e-5 (where both
-            // expressions agree to 1e-5) are compared.
+            // (fixed defect C12-F3, replays/C12/fixed_F3_*.json: ProjDataInfoGeneric::get_tantheta divided the axial distance of the
+            // LOR's end points by the cylinder DIAMETER 2R instead of their transaxial distance 2 sqrt(R^2-s^2), i.e. it was too
+            // small by sqrt(1-(s/R)^2) for off-centre bins)
             {
               const double rl = std::max(std::hypot(double(c1.x()), double(c1.y())), std::hypot(double(c2.x()), double(c2.y())));
-              const bool affected = l.tantheta != 0 && (l.s / rl) * (l.s / rl) >= 2e-5;
-              if (affected && exclusions_on("F3"))
-                count_excluded("C12-F3 generic get_tantheta off-centre");
-              else
-                {
-                  VF_CHECK(std::fabs(tth - sgn * l.tantheta) <= tol.tantheta_rel * std::fabs(l.tantheta) + tol.tantheta_abs, "get_tantheta=", tth,
-                           " but the detectors of ", bstr(b), " give tan(theta)=", sgn * l.tantheta, " (s=", s, ")");
-                  if (l.tantheta != 0)
-                    stats().maxi("(2) blocks rel |tantheta - tantheta_det|", std::fabs(tth - sgn * l.tantheta) / std::fabs(l.tantheta));
-                }
+              if (l.tantheta != 0 && (l.s / rl) * (l.s / rl) >= 2e-5)
+                stats().count("(2) blocks: oblique off-centre bins");
+              VF_CHECK(std::fabs(tth - sgn * l.tantheta) <= tol.tantheta_rel * std::fabs(l.tantheta) + tol.tantheta_abs, "get_tantheta=", tth,
+                       " but the detectors of ", bstr(b), " give tan(theta)=", sgn * l.tantheta, " (s=", s, ")");
+              if (l.tantheta != 0)
+                stats().maxi("(2) blocks rel |tantheta - tantheta_det|", std::fabs(tth - sgn * l.tantheta) / std::fabs(l.tantheta));
             }
             // ---- clause (3) ----
             if (-seg >= p.get_min_segment_num() && -seg <= p.get_max_segment_num() && ax >= p.get_min_axial_pos_num(-seg)
@@ -802,13 +789,11 @@ check_arc_correction(const shared_ptr<ProjDataInfo>& noarc_sptr, const json& a)
   auto in_edge = [&](int j) { return g.R * std::sin((j - .5) * PI / g.N); };
   auto out_edge = [&](int t) { return (t - .5) * delta; };
   const double in_lo = in_edge(imin), in_hi = in_edge(imax + 1);
-  // FINDING C12-F1 (work/notes/C12_findings.md): ArcCorrection::set_up puts the upper edge of the LAST output bin at
-  // (max+1.5) x sampling instead of (max+0.5) x sampling, so that bin collects twice its width whenever the input reaches
-  // it.  Excluded by construction: the last output bin is left out of both facts (its lower edge ends the checked range).
-  const bool excl_last = exclusions_on("F1");
-  const int omax_checked = excl_last ? omax - 1 : omax;
-  if (excl_last && out_edge(omax) < in_hi)
-    count_excluded("C12-F1 last arc-corrected bin reached by the input");
+  // (fixed defect C12-F1, replays/C12/fixed_F1_*.json: ArcCorrection::set_up put the upper edge of the LAST output bin at
+  // (max+1.5) x sampling instead of (max+0.5) x sampling, so that bin collected twice its width whenever the input reached it)
+  const int omax_checked = omax;
+  if (out_edge(omax) < in_hi)
+    stats().count("(4) set-ups whose last arc-corrected bin is reached by the input");
   const double out_lo = out_edge(omin), out_hi = out_edge(omax_checked + 1);
   if (variant == 0 && imax + 2 <= g.N / 2 && imin - 2 >= -g.N / 2)
     { // documented (ArcCorrection.h): "num_arccorrected_bins is chosen such that the new (radial) FOV is slightly larger than the
@@ -824,9 +809,7 @@ check_arc_correction(const shared_ptr<ProjDataInfo>& noarc_sptr, const json& a)
   //  * ArcCorrection keeps the bin edges as float: an edge at distance e from the centre is off by <= 6e-8 e, the width of an
   //    output bin by <= 1.2e-7 e, while the result is divided by the exact sampling -> term edge_rel = 2.4e-7 max|edge| / delta
   //    (2x margin);  float accumulation over the <= ~1000 overlaps of a row: 1e-5.
-  //    (the average output bin is taken over the edges as STIR has them, i.e. including the last edge of finding F1 at
-  //    (max+1.5) x sampling: the larger of the two possible values, so the bound holds with and without that defect)
-  const double eps = std::min((out_edge(omax + 2) - out_lo) / (omax - omin + 1), (in_hi - in_lo) / (imax - imin + 1)) / 10000.;
+  const double eps = std::min((out_edge(omax + 1) - out_lo) / (omax - omin + 1), (in_hi - in_lo) / (imax - imin + 1)) / 10000.;
   const double max_edge = std::max(std::max(std::fabs(out_lo), std::fabs(out_edge(omax + 1))), g.R);
   const double edge_rel = 2.4e-7 * max_edge / delta;
   const double tol_uniform = 2 * eps / delta + edge_rel + 1e-5;
